@@ -326,14 +326,16 @@ CHECKS = {
         "a child reported its table; every case draws its own descriptor set, so distinct = cases (concurrent starts from threads are exercised by C20's engine)",
         {"children_checked": 600, "noncloexec_extra": 2000, "limit_minus_1_cases": 100, "limits": 3}, assumptions=KERNEL_TRUST),
     "C03": scen_check(
-        "eng_ident", "exploration",
+        [("eng_ident", "asan"), ("eng_fault", "asan-nd")], "exploration",
         "argv of 0-59 strings over bytes 1-255 (empty, blanks, quotes, backslashes, '=', invalid UTF-8, up to 70 kB each), "
         "extra environments with duplicates, parent environments of 0-200 random entries, both env behaviours, working "
         "directories, programs named by absolute path, three relative forms (with a decoy of the same name in the requested "
-        "working directory), bare name through PATH, parent cwd of 1.8-18 kB depth; the helper reports argv/env/cwd/exe; "
+        "working directory), bare name through PATH, parent cwd of 1.8-18 kB depth; the helper reports argv/env/cwd/exe; plus the single-fault "
+        "campaign of C04 over the scenarios with extra environment, working directory and start-up input: whenever start still reports "
+        "success the child must have exactly the requested argv, environment and cwd; "
         "non-trivial = a launch was compared",
         {"launches_checked": 1000, "args_compared": 5000, "env_entries_compared": 5000, "relative_programs": 300,
-         "deep_cwd_cases": 100, "path_searches": 100}, assumptions=KERNEL_TRUST),
+         "deep_cwd_cases": 100, "path_searches": 100, "fault_launches_compared": 300}, assumptions=KERNEL_TRUST),
     "C14": scen_check(
         [("eng_seq", "asan"), ("eng_seq", "asan-nd"),
          ("eng_seq", "plain", {"tiers": ["thorough"], "limit": 800,
